@@ -152,6 +152,13 @@ def gen_cases(ctx):
         b = rng.choice(B)
         g = gen_sql.Gen(rng, b, max_depth=rng.choice([1, 2, 3]), no_marks=True, value_pool=pool)
         q = g.query(rng.choice([1, 2])) if rng.random() < 0.7 else g.expr()
+        if b == "pg" and rng.random() < 0.15:
+            # raw text with a `$` that is NOT a numbered placeholder (dollar-quoted text, `$` before a word that is
+            # not a number, `$` before a blank): inject_parameters must copy it, word included
+            raw = rng.choice(["$tag$hello$tag$", "$x", "a $b c", "$1x", "x$y", "$ 1", "$$", "$_1", "f($abc, 2)"])
+            q = "(select (expr (cust %s)) (expr %s) (from (t 74)) (andwhere (bin eq (col 61) (val i:i32:7))))" % (
+                hexs(raw), q if not q.startswith("(select") and not q.startswith("(insert") and not q.startswith("(update")
+                and not q.startswith("(delete") and not q.startswith("(withq") else "(val s:%s)" % hexs("v"))
         # KNOWN CLASS F28 (genuine defect of inject_parameters, listed in known_findings.json): an array value written
         # as a constant (SimpleExpr::Constant / ORDER BY FIELD: inlined in the parameterised SQL too) one of whose
         # elements contains `]`, e.g. build() = "SELECT ARRAY [']'] WHERE $1".  The crate tokenizer reads `[...]` as
